@@ -137,6 +137,8 @@ pub struct Cut {
     /// relative path of the file the effect touched
     pub path: String,
     pub allowed: Vec<Logical>,
+    /// (cuts of an ingestion) the segment file already has its final name
+    pub segment_renamed: bool,
 }
 
 #[derive(Default)]
@@ -184,6 +186,7 @@ fn canonical_trace(entries: &[Sx], snapdir: &Path) -> Sx {
             ("create", Some(id), _) => Some((0, lst(vec![a("waltmp-create"), Sx::int(id)]))),
             ("write", Some(id), _) => Some((1, lst(vec![a("waltmp-write"), Sx::int(id)]))),
             ("rename", Some(id), _) => Some((2, lst(vec![a("wal-rename"), Sx::int(id)]))),
+            ("remove", Some(_), _) => Some((6, lst(vec![a("waltmp-remove")]))),
             ("rename", None, Some(t)) if t == "meta" => {
                 // the cursor the new catalogue file holds
                 let (m, _) = parse_disk(&crate::child::disk_sx(&snapdir.join(format!("{}", n))));
@@ -208,7 +211,7 @@ fn canonical_trace(entries: &[Sx], snapdir: &Path) -> Sx {
             ("remove", None, _) if path.starts_with("wal/") => path["wal/".len()..]
                 .strip_suffix(".wal")
                 .and_then(|x| x.parse::<u64>().ok())
-                .map(|id| (6, lst(vec![a("rmwal"), Sx::int(id)]))),
+                .map(|id| (7, lst(vec![a("rmwal"), Sx::int(id)]))),
             _ => None,
         };
         if let Some((g, x)) = item {
@@ -461,6 +464,7 @@ pub fn run_crash(input: &Sx) -> Vec<Outcome> {
                 violation("effect-order".into(), format!("flush (op {}): {}", oi, why), &mut outs);
             }
         }
+        let mut renamed = false;
         for e in eff.items()[2].items() {
             let ei = e.items();
             let n = ei[0].as_usize();
@@ -468,6 +472,9 @@ pub fn run_crash(input: &Sx) -> Vec<Outcome> {
                 continue;
             }
             n_seen = n;
+            if ei[1].atom() == "rename" && sx_name(&ei[2]).starts_with("wal/") {
+                renamed = true;
+            }
             let allowed = if kind == "ingest" { vec![before.clone(), acked.clone()] } else { vec![acked.clone()] };
             cuts.push(Cut {
                 dir: snaps.path().join(format!("life{}", life)).join(format!("{}", n)),
@@ -476,6 +483,7 @@ pub fn run_crash(input: &Sx) -> Vec<Outcome> {
                 effect: ei[1].atom().to_string(),
                 path: sx_name(&ei[2]),
                 allowed,
+                segment_renamed: renamed,
             });
         }
     }
@@ -569,7 +577,29 @@ pub fn run_crash(input: &Sx) -> Vec<Outcome> {
                     );
                 }
                 Ok((d, n_eff)) => {
-                    let which = cut.allowed.iter().position(|l| l.differs(&d, &spec).is_none());
+                    // Model/CrashSM.v, C09_ingest_cuts: while the segment still has its temporary name
+                    // recovery gives exactly the acknowledged requests (the temp file is not read), once
+                    // it is renamed exactly those plus the request in flight
+                    let expected: Option<usize> =
+                        if cut.op_kind == "ingest" && cut.allowed.len() == 2 { Some(if cut.segment_renamed { 1 } else { 0 }) } else { None };
+                    let which = match expected {
+                        Some(e) => {
+                            if cut.allowed[e].differs(&d, &spec).is_none() {
+                                Some(e)
+                            } else {
+                                None
+                            }
+                        }
+                        None => cut.allowed.iter().position(|l| l.differs(&d, &spec).is_none()),
+                    };
+                    // the recovery removed the leftover (Storage::recover since 4e8886f)
+                    if has_wal_temp && wal_temp_present(&v) {
+                        violation(
+                            "recovery-leaves-wal-temp".into(),
+                            format!("cut after {} of {} (op {} {}, {}): the temporary file is still in wal/ after the recovery", cut.effect, cut.path, cut.op_index, cut.op_kind, vname),
+                            &mut outs,
+                        );
+                    }
                     match which {
                         Some(i) => {
                             if cut.allowed.len() == 2 && i == 1 {
@@ -578,12 +608,19 @@ pub fn run_crash(input: &Sx) -> Vec<Outcome> {
                             trace.push(lst(vec![a(&label), a(if cut.allowed.len() == 2 && i == 1 { "acked+inflight" } else { "acked" })]));
                         }
                         None => {
-                            let why = cut.allowed.last().unwrap().differs(&d, &spec).unwrap_or_default();
+                            let why = match expected {
+                                Some(e) => format!(
+                                    "expected {}: {}",
+                                    if e == 0 { "the acknowledged requests only (segment not yet renamed)" } else { "the acknowledged requests plus the one in flight (segment renamed)" },
+                                    cut.allowed[e].differs(&d, &spec).unwrap_or_default()
+                                ),
+                                None => cut.allowed.last().unwrap().differs(&d, &spec).unwrap_or_default(),
+                            };
                             trace.push(lst(vec![a(&label), a("wrong-content")]));
                             violation(
                                 format!("crash-content:{}:{}{}", cut.op_kind, cut.effect, if has_wal_temp { ":wal-temp" } else { "" }),
                                 format!(
-                                    "cut after {} of {} (op {} {}, {}): recovered content is neither the acknowledged requests nor those plus the one in flight: {}",
+                                    "cut after {} of {} (op {} {}, {}): recovered content is not what the cut allows: {}",
                                     cut.effect, cut.path, cut.op_index, cut.op_kind, vname, why
                                 ),
                                 &mut outs,
@@ -615,7 +652,7 @@ pub fn run_crash(input: &Sx) -> Vec<Outcome> {
                         }
                     }
                     // is the recovered database usable: one flush, same content
-                    let complete_temp = has_wal_temp && trunc.is_none();
+                    let complete_temp = has_wal_temp;
                     if (complete_temp && !probed_temp) || (!has_wal_temp && !probed_other && cut.op_kind == "flush") {
                         if complete_temp {
                             probed_temp = true;
